@@ -38,6 +38,10 @@ if _VF_SYMBOLIC:
 else:
   def L(f, *a, **k): return f(*a, **k)
   def oracle(f): return f
+if _VF_SYMBOLIC:
+  from crosshair import realize as _real
+else:
+  def _real(x): return x
 
 def mk(t, **kw): return L(View, t, **kw)
 def cs(view, k, v=()): return L(view.copy_and_set, k, v)
@@ -141,7 +145,7 @@ def same(a, b):
     for x, y in zip(a, b):
       if not same(x, y): return False
     return True
-  return bool(a == b)
+  return L(lambda: bool(a == b))              # leaf values: a solver question when they are symbolic
 
 def _prefix(a, b): return len(a) <= len(b) and b[:len(a)] == a
 def _related(a, b): return _prefix(a, b) or _prefix(b, a)
@@ -180,14 +184,17 @@ def targets(t, kinds):
   return out
 
 # ---- law: iteration lists every leaf exactly once with a path that reads it back --------------------------------
-def iter_ok(view):
+def iter_ok(view, full=1):
+  """keys() lists every leaf path exactly once (and nothing else); len agrees; full: items()/values()/iter() agree
+  and every listed path reads back the identical leaf object through the view."""
   t = view.data
   leaves = ref_leaves(t)
   keys = L(view.keys)
-  if len(keys) != len(leaves) or L(len, view) != len(leaves): return False
+  if len(keys) != len(leaves) or (full >= 0 and L(len, view) != len(leaves)): return False
   plain = [tuple(k) for k in keys]
   for p, o in leaves:
     if plain.count(p) != 1: return False
+  if full <= 0: return True
   items = L(lambda: list(view.items())); vals = L(view.values); it = L(list, view)
   if len(items) != len(keys) or len(vals) != len(keys) or len(it) != len(keys): return False
   for i, k in enumerate(keys):
@@ -198,12 +205,13 @@ def iter_ok(view):
   return True
 
 # ---- law: copying set (get-after-set, frame, original untouched, sharing) -------------------------------------------
-def check_set(t, p, v, touch=0, via=0, absent=(), reads=1):
+def check_set(t, p, v, touch=0, via=0, absent=(), reads=0):
   snap = ref_copy(t); before = ref_nodes(t)
   view = mk(t)
-  if touch:           # history: the source view has been looked at before the copy is derived
+  if touch == 1:      # history: the source view has been looked at before the copy is derived
     if L(len, view) != len(ref_leaves(t)): return False
-    L(view.keys)
+  elif touch == 2: L(view.keys)
+  elif touch == 3: L(lambda: list(view.items()))
   if via == 0: new = cs(view, Key(p), v)
   elif via == 1: new = L(view.copy_and_update, {Key(p): v})
   elif via == 2: new = L(lambda: view | [(Key(p), v)])
@@ -212,24 +220,24 @@ def check_set(t, p, v, touch=0, via=0, absent=(), reads=1):
   if not unchanged(t, snap, before): return False
   got = rd(new, Key(p))
   if not (got is v or same(got, v)): return False
-  if gd(new, Key(p)) is not got: return False
   if not same(new.data, ref_set(snap, p, v)): return False
-  if not shared(new.data, before, p): return False
+  if not shared(new.data, before, p): return False       # every other path holds the identical object (data level)
   if reads:
-    for q, o in before:
-      if not _related(p, q) and rd(new, Key(q)) is not o: return False   # every other path reads the identical object
+    if gd(new, Key(p)) is not got: return False
+    for q, o in before:                                   # ... and reads it through the view (leaves; reads=2: all nodes)
+      if not _related(p, q) and (reads == 2 or not is_node(o)) and rd(new, Key(q)) is not o: return False
   existing = [q for q, _ in before]
   for q in absent:
     # other non-existing paths (diverging from p at a node that already existed) still read the default
     if not _related(p, q) and _fork(p, q) in existing and gd(new, Key(q)) is not _DFLT: return False
-  if touch and not (iter_ok(new) and iter_ok(view)): return False
+  if touch and not (iter_ok(new, 0) and iter_ok(view, -1)): return False
   return True
 
 @oracle
 def fam_set_leaf(t, v):
   """every existing leaf path: set to a symbolic int; and set to its current value (no-op law)."""
   for n, (p, o) in enumerate(ref_leaves(t)):
-    if not check_set(t, p, v, via=n % 4): return False
+    if not check_set(t, p, v, via=n % 4, reads=2): return False
     new = cs(mk(t), Key(p), o)                      # set to the current value: nothing changes
     if not same(new.data, t) or rd(new, Key(p)) is not o: return False
   return True
@@ -244,35 +252,40 @@ def fam_set_struct(t, v):
     if not same(new.data, t) or rd(new, Key(p)) is not cur: return False
   for n, p in enumerate(targets(t, ('leaf',))):
     for val in ([v], {'z': v}, (v, v)):
-      if not check_set(t, p, val, reads=0): return False
+      if not check_set(t, p, val): return False
   return True
 
 @oracle
 def fam_fresh(t, v):
   """fresh dict keys, fresh nested paths (default sub-tree is created), index-append on lists and tuples."""
-  absent = targets(t, ('fresh', 'deep', 'append'))
+  absent = targets(t, ('fresh', 'append'))
   view = mk(t)
   for p in absent:                                  # non-existing paths read the default, before any set
     if gd(view, Key(p)) is not _DFLT: return False
   for p in absent:
-    if not check_set(t, p, v, absent=absent): return False
+    if not check_set(t, p, v, absent=absent, reads=1): return False
+  for p in targets(t, ('deep',)):
+    if not check_set(t, p, v): return False
   return True
 
 @oracle
 def fam_hist(t, v):
   """history: iterate the view first, then derive copies that change the structure; iterate source and copy again."""
+  n = 0
   for p in targets(t, ('fresh', 'append', 'node')):
-    if not check_set(t, p, v, touch=1, reads=0): return False
+    n += 1
+    if not check_set(t, p, v, touch=1 + n % 3): return False
   for p in targets(t, ('leaf',)):
-    if not check_set(t, p, {'z': [v]}, touch=1, reads=0): return False
+    n += 1
+    if not check_set(t, p, {'z': [v]}, touch=1 + n % 3): return False
   # the same for an in-place set on a view that has been iterated
-  for p in targets(t, ('fresh', 'append', 'node')):
+  for p in targets(t, ('fresh', 'append')):
     t2 = ref_copy(t)
     if any(isinstance(o, tuple) for q, o in ref_nodes(t2) if _prefix(q, p) and q != p): continue
     w = mk(t2)
-    L(list, w)
+    L(w.keys)
     L(w.set, Key(p), v)
-    if not same(w.data, ref_set(t, p, v)) or not iter_ok(w): return False
+    if not same(w.data, ref_set(t, p, v)) or not iter_ok(w, 0): return False
   return True
 
 # ---- law: iteration / multi-key reads / special keys -------------------------------------------------------------
@@ -285,8 +298,8 @@ def fam_items(t, v):
   for p, o in ref_nodes(t):
     if len(p) == 1: cands.append((p[0], o))         # plain (non-Key) single keys
     if is_node(o): cands += [(Key(p + (SELF,)), o), (Key(p + (Literal(v),)), v)]
-  for k, o in cands:
-    if rd(view, k) is not o or gd(view, k) is not o: return False
+  for n, (k, o) in enumerate(cands):
+    if (gd(view, k) if n % 2 else rd(view, k)) is not o: return False   # view[k] and view.get(k) alternate
   ks = tuple(k for k, _ in cands)
   want = [o for _, o in cands]
   for keys, exp in ((ks, want), (ks[::-1], want[::-1]), (list(ks), want)):
@@ -294,9 +307,8 @@ def fam_items(t, v):
     if type(r) is not tuple or len(r) != len(keys): return False
     for x, y in zip(r, exp):
       if x is not y: return False
-  for i in range(len(cands) - 1):
-    r = rd(view, (cands[i][0], cands[i + 1][0]))
-    if type(r) is not tuple or len(r) != 2 or r[0] is not cands[i][1] or r[1] is not cands[i + 1][1]: return False
+  r = L(view.get, (cands[-1][0], cands[0][0]), _DFLT)
+  if type(r) is not tuple or len(r) != 2 or r[0] is not cands[-1][1] or r[1] is not cands[0][1]: return False
   r = rd(view, (cands[0][0],))
   if type(r) is not tuple or len(r) != 1 or r[0] is not cands[0][1]: return False
   if rd(view, ()) != (): return False
@@ -329,10 +341,10 @@ def fam_apply(t, v):
     r = L(lambda: View(t, key_paths=(Key(p),), map_fn=_tag).apply())
     if not same(r, ref_set(snap, p, _tag(o))) or not shared(r, before, p): return False
   if not unchanged(t, snap, before): return False
-  # apply with an int function (all leaves ints: no nested empty container)
-  if not any(isinstance(o, _CONT) for _, o in ref_leaves(t)):
+  # apply with an int function (all leaves ints: no nested empty container); kept to the small shapes
+  if len(ref_leaves(t)) <= 2 and not any(isinstance(o, _CONT) for _, o in ref_leaves(t)):
     r = L(lambda: View.as_view(t, map_fn=lambda x: x + v).apply())
-    if not same(r, ref_map(snap, lambda x: x + v)): return False
+    if not same(r, ref_map(snap, lambda x: L(lambda: x + v))): return False
   return unchanged(t, snap, before)
 
 # ---- law: sequences of two copying sets --------------------------------------------------------------------------
@@ -340,6 +352,7 @@ def fam_apply(t, v):
 def fam_two(t, a, b, kinds, forms):
   snap = ref_copy(t); before = ref_nodes(t)
   tg = targets(t, kinds)
+  leafs = targets(t, ('leaf',))
   v0 = mk(t)
   for p1 in tg:
     v1 = cs(v0, Key(p1), a)
@@ -352,43 +365,50 @@ def fam_two(t, a, b, kinds, forms):
       if not unchanged(t, snap, before) or not unchanged(v1.data, s1, n1): return False
       if not same(v2.data, ref_set(e1, p2, b)): return False
       if not shared(v2.data, before, p1, p2) or not shared(v2.data, n1, p2): return False
-      if not forms: continue
+      if not forms or not (p1 in leafs and p2 in leafs): continue   # multi-key forms: pairs of existing leaves
       if rd(v2, Key(p2)) is not b: return False
       if p1 != p2 and rd(v2, Key(p1)) is not a: return False
       # the multi-key forms are the same sequence
       v3 = cs(v0, (Key(p1), Key(p2)), (a, b))
-      v4 = L(lambda: v0 | [(Key(p1), a), (Key(p2), b)])
-      if not same(v3.data, v2.data) or not same(v4.data, v2.data): return False
+      if not same(v3.data, v2.data): return False
       if p1 != p2:
         v5 = L(v0.copy_and_update, {Key(p1): a, Key(p2): b})
         if not same(v5.data, v2.data): return False
         r = rd(v5, (Key(p1), Key(p2)))
         if type(r) is not tuple or len(r) != 2 or r[0] is not a or r[1] is not b: return False
+      else:
+        v4 = L(lambda: v0 | [(Key(p1), a), (Key(p2), b)])     # the later pair wins
+        if not same(v4.data, v2.data): return False
   return unchanged(t, snap, before)
 
 # ---- law: in-place set vs copying set ------------------------------------------------------------------------------
 @oracle
 def fam_inplace(t, v, kinds):
+  first = True
   for p in targets(t, kinds):
     t2 = ref_copy(t); snap = ref_copy(t)
     before = ref_nodes(t2)
-    want = cs(mk(t), Key(p), v).data
-    if not same(want, ref_set(snap, p, v)): return False
     tuple_on_path = any(isinstance(o, tuple) for q, o in before if _prefix(q, p) and q != p)
+    # (the library formats the value into its error message: keep it concrete where the set may be refused)
+    val = 12345 if tuple_on_path else v
+    want = ref_set(snap, p, val)
     view = mk(t2)
     try:
-      r = L(view.set, Key(p), v)
+      r = L(view.set, Key(p), val)
     except (KeyError, TypeError):
       if tuple_on_path: continue                    # immutable container on the path: in-place set may refuse
       return False
     if r is not view or view.data is not t2: return False
-    if not same(t2, want) or rd(view, Key(p)) is not v: return False
+    if not same(t2, want) or rd(view, Key(p)) is not val: return False
     if not tuple_on_path:
       for q, o in before:                           # in place: every pre-existing container is still the same object
         if (not _related(p, q) or (_prefix(q, p) and q != p)) and ref_get(t2, q) is not o: return False
-      view2 = mk(ref_copy(t))
-      L(view2.__setitem__, Key(p), v)               # __setitem__ is the in-place set
-      if not same(view2.data, want): return False
+      if first:
+        first = False
+        view2 = mk(ref_copy(t))
+        L(view2.__setitem__, Key(p), v)             # __setitem__ is the in-place set
+        if not same(view2.data, want): return False
+        if not same(cs(mk(t), Key(p), v).data, want): return False   # in-place and copying set agree
   return True
 
 # ---- special keys: SELF, SKIP, empty key tuple ------------------------------------------------------------------------
@@ -407,12 +427,14 @@ def fam_special(t, a, b):
     if not same(new.data, snap): return False
     for q, o in before:
       if len(q) == 1 and ref_get(new.data, q) is not o: return False
-  for p in targets(t, ('leaf', 'fresh', 'append')):
+  for p in targets(t, ('leaf', 'fresh')):
     want = ref_set(snap, p, a)
     for keys, vals in (((Key(p), SKIP), (a, b)), ((SKIP, Key(p)), (b, a))):
       new = cs(view, keys, vals)
       if not same(new.data, want) or rd(new, Key(p)) is not a: return False
       if not shared(new.data, before, p): return False
+  for p in targets(t, ('leaf',)):
+    want = ref_set(snap, p, a)
     new = cs(view, Key(p + (SELF,)), a)             # SELF at the end of a path selects the node itself
     if not same(new.data, want): return False
     new = cs(view, (Key(p),), (a,))                 # single key inside a tuple
@@ -420,6 +442,75 @@ def fam_special(t, a, b):
     new = cs(view, (Key(p),), (a, b))               # one key, several values: the tuple is the value
     if not same(new.data, ref_set(snap, p, (a, b))): return False
   return unchanged(t, snap, before)
+
+# ---- empty containers / the empty view as root -------------------------------------------------------------------
+@oracle
+def fam_empty_roots(v):
+  for t, p, want in (({}, ('c',), {'c': v}), ([], (Index(0),), [v]), ((), (Index(0),), (v,)),
+                     ({}, ('c', Index(0), 'd'), {'c': [{'d': v}]}), ([], (Index(0), 'd'), [{'d': v}])):
+    view = mk(t)
+    if not iter_ok(view): return False                    # no leaves: nothing is listed
+    if not check_set(t, p, v, touch=2): return False
+    if not same(cs(view, Key(p), v).data, want): return False
+    r = L(lambda: View.as_view(t, map_fn=_tag).apply())
+    if not same(r, t) or len(t) != 0: return False
+  # a view without data: any path creates the default tree
+  for p, want in ((('c',), {'c': v}), ((Index(0),), [v]), (('c', 'd'), {'c': {'d': v}}), (('c', Index(0)), {'c': [v]})):
+    new = cs(L(View), Key(p), v)
+    if not same(new.data, want) or rd(new, Key(p)) is not v or not iter_ok(new): return False
+  return True
+
+# ---- numpy arrays as INTERIOR nodes: concrete structure; the value is enumerated (realized) by the solver --------
+def fam_np(v):
+  v = _real(v)
+  for i in range(3):                                      # 1-D array below a list below a dict
+    arr = _np.array([1, 2, 3]); inner = [2, 3, 4]
+    data = {'a': 1, 'b': [arr, inner]}
+    p = ('b', Index(0), Index(i))
+    if not check_set(data, p, v): return False
+    if data['b'][0] is not arr or arr.tolist() != [1, 2, 3]: return False
+    new = cs(mk(data), Key(p), arr[i])                    # no-op law through an array
+    if not same(new.data, data) or arr.tolist() != [1, 2, 3]: return False
+    new = L(mk(data).copy_and_update, {Key(p): v, Key(('b', Index(1), Index(0))): v})
+    if arr.tolist() != [1, 2, 3] or inner != [2, 3, 4] or new.data['b'][1] != [v, 3, 4]: return False
+  for i in range(2):                                      # 2-D array as the root: two array levels on the path
+    for j in range(3):
+      mat = _np.arange(6).reshape(2, 3)
+      if not check_set(mat, (Index(i), Index(j)), v): return False
+      if mat.tolist() != [[0, 1, 2], [3, 4, 5]]: return False
+  # two successive copying sets into the same array: every intermediate stays intact
+  w = _np.zeros(3, dtype=int)
+  data = {'w': w, 'meta': ('k', [1, 2])}
+  v0 = mk(data)
+  if not iter_ok(v0): return False                        # arrays are leaves for iteration
+  v1 = cs(v0, Key(('w', Index(0))), v)
+  v2 = cs(v1, Key(('w', Index(2))), v + 1)
+  if w.tolist() != [0, 0, 0] or v1.data['w'].tolist() != [v, 0, 0] or v2.data['w'].tolist() != [v, 0, v + 1]: return False
+  if data['w'] is not w or v2.data['meta'] is not data['meta']: return False
+  return True
+
+# ---- apply_mask: element masks, nested masks, broadcasting a mask over the leaves of a dict (TreeMapView.apply) ----
+def fam_mask(b0, b1, b2, v):
+  am = tree.apply_mask
+  m = [b0, b1, b2]
+  keep = [i for i in range(3) if m[i]]
+  xs = [10, 11, 12]
+  if am(list(xs), masks=m) != [xs[i] for i in keep]: return False
+  if am(tuple(xs), masks=m) != tuple(xs[i] for i in keep): return False
+  if am(list(xs), masks=m, replace_false_with=v) != [xs[i] if m[i] else v for i in range(3)]: return False
+  nested = {'k': (10, 11), 'l': [12]}
+  r = am(nested, masks={'k': [b0, b1], 'l': b2})
+  want = {'k': tuple(x for x, b in ((10, b0), (11, b1)) if b)}
+  if b2: want['l'] = [12]
+  if not same(r, want) or nested != {'k': (10, 11), 'l': [12]}: return False
+  if am(nested, masks=True) is not nested: return False
+  # a flat mask is broadcast to every (array) leaf of a dict, and only to leaves
+  a1 = _np.array([1, 2, 3]); a2 = _np.array([4, 5, 6])
+  items = {'a': a1, 'b': {'c': a2}}
+  r = am(items, masks=m)
+  if type(r) is not dict or list(r) != ['a', 'b'] or type(r['b']) is not dict or list(r['b']) != ['c']: return False
+  if r['a'].tolist() != [[1, 2, 3][i] for i in keep] or r['b']['c'].tolist() != [[4, 5, 6][i] for i in keep]: return False
+  return items['a'] is a1 and items['b']['c'] is a2 and a1.tolist() == [1, 2, 3] and a2.tolist() == [4, 5, 6]
 '''
 
 
@@ -428,43 +519,45 @@ def _args(nc, nl, extra):
   return ', '.join(ps)
 
 
-def templates(tier, cmax):
-  """(tag, tree expression, number of choice ints, number of leaves, pre). T = symbolic sub-tree of depth 2."""
+def templates(tier):
+  """(tag, tree expression, number of choice ints, number of leaves, pre on the root choice). T = symbolic sub-tree of depth 2."""
   T = 'build([c0, c1, c2], [0, 0], 2, [l0, l1, l2, l3])'
-  kid = f'0 <= c1 <= {cmax} and 0 <= c2 <= {cmax}'
-  out = [('dict', T, 3, 4, '1 <= c0 <= 2 and ' + kid),
-         ('list', T, 3, 4, '3 <= c0 <= 4 and ' + kid),
-         ('tuple', T, 3, 4, '5 <= c0 <= 6 and ' + kid)]
+  out = [('dict', T, 3, 4, '1 <= c0 <= 2'), ('list', T, 3, 4, '3 <= c0 <= 4'), ('tuple', T, 3, 4, '5 <= c0 <= 6')]
   if tier == 'thorough':
-    any0 = f'0 <= c0 <= {cmax} and ' + kid
     for tag, expr in (('d3_d1', "{'a': %s}"), ('d3_d2a', "{'a': %s, 'b': l4}"), ('d3_d2b', "{'a': l4, 'b': %s}"),
                       ('d3_l1', '[%s]'), ('d3_l2a', '[%s, l4]'), ('d3_l2b', '[l4, %s]'),
                       ('d3_t1', '(%s,)'), ('d3_t2a', '(%s, l4)'), ('d3_t2b', '(l4, %s)')):
-      out.append((tag, expr % T, 3, 5, any0))
+      out.append((tag, expr % T, 3, 5, '0 <= c0 <= 9'))
   return out
 
 
-def gen(tier, cmax, fams):
+# family -> (extra symbolic ints, call, heavy). Heavy families use the smaller child-choice range in the quick tier.
+FAMILIES = {
+    'set_leaf': (['v'], 'fam_set_leaf(t, v)', False),
+    'set_struct': (['v'], 'fam_set_struct(t, v)', True),
+    'fresh': (['v'], 'fam_fresh(t, v)', False),
+    'hist': (['v'], 'fam_hist(t, v)', True),
+    'items': (['v'], 'fam_items(t, v)', False),
+    'apply': (['v'], 'fam_apply(t, v)', False),
+    'two': (['a', 'b'], "fam_two(t, a, b, ('leaf', 'fresh', 'append'), 1)", True),
+    'inplace': (['v'], "fam_inplace(t, v, ('leaf', 'node', 'fresh', 'append'))", False),
+    'special': (['a', 'b'], 'fam_special(t, a, b)', True),
+}
+
+
+def gen(tier, cmax, cmax_heavy):
   F = xh.fn
   s = [PRELUDE]
   A = s.append
-  for tag, expr, nc, nl, pre in templates(tier, cmax):
-    def ob(fam, extra, call):
-      if fams and fam not in fams:
-        return
-      A(F(f'ob_{fam}_{tag}', _args(nc, nl, extra), pre, f"""
+  for tag, expr, nc, nl, pre in templates(tier):
+    for fam, (extra, call, heavy) in FAMILIES.items():
+      cm = cmax_heavy if heavy else cmax
+      A(F(f'ob_{fam}_{tag}', _args(nc, nl, extra), f'{pre} and 0 <= c1 <= {cm} and 0 <= c2 <= {cm}', f"""
       t = {expr}
       return {call}"""))
-    ob('set_leaf', ['v'], 'fam_set_leaf(t, v)')
-    ob('set_struct', ['v'], 'fam_set_struct(t, v)')
-    ob('fresh', ['v'], 'fam_fresh(t, v)')
-    ob('hist', ['v'], 'fam_hist(t, v)')
-    ob('items', ['v'], 'fam_items(t, v)')
-    ob('apply', ['v'], 'fam_apply(t, v)')
-    ob('two_leaf', ['a', 'b'], "fam_two(t, a, b, ('leaf',), 1)")
-    ob('two_mixed', ['a', 'b'], "fam_two(t, a, b, ('leaf', 'fresh', 'append'), 0)")
-    ob('inplace', ['v'], "fam_inplace(t, v, ('leaf', 'node', 'fresh', 'deep', 'append'))")
-    ob('special', ['a', 'b'], 'fam_special(t, a, b)')
+  A(F('ob_empty_roots', 'v: int', 'True', 'return fam_empty_roots(v)'))
+  A(F('ob_np_interior', 'v: int', '0 <= v <= 2', 'return fam_np(v)'))
+  A(F('ob_apply_mask', 'b0: bool, b1: bool, b2: bool, v: int', '0 <= v <= 1', 'return fam_mask(b0, b1, b2, v)'))
   # ---- vacuity witnesses: the interesting situations are reachable inside the bounds ------------------------------
   wa = _args(3, 4, ['v'])
   wpre = f'1 <= c0 <= 6 and 0 <= c1 <= {cmax} and 0 <= c2 <= {cmax}'
@@ -475,7 +568,6 @@ def gen(tier, cmax, fams):
       return not (len(lv) == 4 and all(len(p) == 2 for p, _ in lv) and isinstance(t, tuple) and isinstance(t[1], dict))"""))
   A(F('wit_tuple_on_path_falsy_leaf', wa, wpre, f"""
       t = {T}
-      lv = ref_leaves(t)
       return not (isinstance(t, list) and len(t) == 2 and isinstance(t[0], tuple) and len(t[0]) == 2 and l0 == 0 and l1 != 0
                   and View(t).copy_and_set(Key((Index(0), Index(1))), v)[Key((Index(0), Index(1)))] == v and v < 0)"""))
   A(F('wit_nested_empty_is_leaf', wa, wpre, f"""
@@ -503,10 +595,10 @@ def run(tier):
               V.copy_and_set, V.copy_and_update, V.__or__, V.apply, V.as_view, tree._default_tree, tree._dfs_iter_tree,
               tree.normalize_keys, tree.apply_mask)
   if tier == 'quick':
-    p = dict(cmax=9, fams=None)
+    p = dict(cmax=9, cmax_heavy=6)
     timeout = 150
   else:
-    p = dict(cmax=9, fams=None)
+    p = dict(cmax=9, cmax_heavy=9)
     timeout = 1200
   rep.bounds(tier=tier, depth=2 if tier == 'quick' else 3, per_condition_timeout_s=timeout, **p)
   only = os.environ.get('VF_ONLY')
